@@ -1,6 +1,8 @@
 (* c13_driver.ml — runs the extracted chain/usage model (Chain_Model + Chain_Spec over the GENERATED tables).
    stdin, one request per line:
      Q <method> <order|-> <range|using|matrix>     order is a word over K,D,F ("-" = nothing attached)
+     SLOTS <subset of KDF>                          "S slots kernel=.. distance=.. features=.. plain_distance=..
+                                                    kernel_distance=.. begin=<0|1> end=<0|1>" (after tapkee::embed)
      SUMMARY                                        per-method tables and every decider of Chain_Spec
      OLD <method> <order|-> <entry>                 same as Q on the tables before the F13 repair
    stdout, one line per Q/OLD request:
@@ -48,6 +50,30 @@ let show_outcome = function
 
 let b01 b = if b then "1" else "0"
 
+let rec show_value = function
+  | VUser k -> Printf.sprintf "U:%c" (kind_char k)
+  | VDummy k -> Printf.sprintf "dummy:%c" (kind_char k)
+  | VEigen k -> Printf.sprintf "eigen:%c" (kind_char k)
+  | VWrap (w, v) -> Printf.sprintf "%s(%s)" (of_coq w) (show_value v)
+  | VParams -> "params" | VBegin -> "begin" | VEnd -> "end" | VSeq -> "seq" | VMatrix -> "matrix"
+  | VOther s -> "other:" ^ of_coq s
+
+(* the slots of the method implementation object when tapkee::embed is handed the callbacks of [subset] and dummies
+   elsewhere (the model's counterpart of the harness's SLOTS dump) *)
+let slots subset =
+  match parse_order subset with
+  | None -> print_endline "S invalid"
+  | Some ks ->
+    let cb k = if List.mem k ks then VUser k else VDummy k in
+    (match downstream chain_gen [VBegin; VEnd; cb Kern; cb Dist; cb Feat; VParams] with
+     | RObj (_, fs) ->
+       let get n = match lookup (to_coq n) fs with Some v -> show_value v | None -> "missing" in
+       Printf.printf "S slots kernel=%s distance=%s features=%s plain_distance=%s kernel_distance=%s begin=%s end=%s\n"
+         (get "kernel") (get "distance") (get "features") (get "plain_distance") (get "kernel_distance")
+         (b01 (get "begin" = "begin")) (b01 (get "end" = "end"))
+     | RErr w -> Printf.printf "S error %s\n" (of_coq w)
+     | _ -> print_endline "S error")
+
 let query u name order entry =
   match find_method u.u_methods (to_coq name), parse_order order, parse_entry entry with
   | None, _, _ -> print_endline "O NOMETHOD"
@@ -92,6 +118,7 @@ let () =
       | ["Q"; m; o; e] -> query uses_gen m o e
       | ["OLD"; m; o; e] -> query (uses_before_F13 uses_gen) m o e
       | ["SUMMARY"] -> summary ()
+      | ["SLOTS"; sub] -> slots sub
       | [""] -> ()
       | _ -> print_endline "O INVALID"
     done
